@@ -1,7 +1,7 @@
 (* C17 — One live message queue per peer, delivering in queued order.
    Only statements; proofs are in GS.PeerMgrProofs. *)
 From Coq Require Import List NArith Bool.
-From GS Require Import Base PeerMgr PeerMgrProofs PeerMgrConc PeerMgrConcProofs.
+From GS Require Import Base PeerMgr PeerMgrProofs PeerMgrConc PeerMgrConcProofs PeerMgrMonitor.
 Import ListNotations.
 Open Scope N_scope.
 
@@ -65,6 +65,22 @@ Theorem C17_conc_same_process : forall gs p k w,
 Proof. exact c17_conc_same_process. Qed.
 Print Assumptions C17_conc_same_process.
 
+(* The monitors of the correspondence run accept every trace of the model: MON17 (one live queue per
+   peer = the table's, GetProcess hands out the table's queue, no queue outlives the last disconnect)
+   evaluated on the model's own trace of ANY label sequence is true, with the owner list (peer of each
+   queue by creation order) of the final state.  So a history on which the implementation agrees with
+   the model is never rejected, and a rejection is a statement about the implementation alone. *)
+Theorem C17_monitor : forall ls,
+  pmcase_mon {| pmc_labels := ls; pmc_owner := owners (prun_pm pm_new ls); pmc_obs := pm_trace pm_new ls |} = true.
+Proof. exact c17_monitor. Qed.
+Print Assumptions C17_monitor.
+(* The same for MON17C on every group script the harness produces (gs_ok: a group whose lookups miss
+   is never paired with a Disconnected of the same peer waiting for the write lock — that writer and
+   the callers' getOrCreate do not commute, PeerMgrConc.v). *)
+Theorem C17_conc_monitor : forall gs, gs_ok pm_new gs = true ->
+  gcase_mon {| gc_labels := gs; gc_owner := owners (grun pm_new gs); gc_obs := g_trace pm_new gs |} = true.
+Proof. exact c17_conc_monitor. Qed.
+Print Assumptions C17_conc_monitor.
 (* Non-vacuity for groups: three concurrent first sends to an unknown peer create exactly one queue;
    the monitor rejects the observation in which two of them created a queue each. *)
 Example C17_conc_first_use :
